@@ -32,6 +32,12 @@ type c19sum struct {
 	counts map[int]*flow.State // count on a (possibly) successful exit → a witness
 	sites  []*ast.CallExpr     // call sites that issue requests
 	res    *flow.Result
+	// error faithfulness: an exit on which the error of a request site is known non-nil but the
+	// function's own error result is not known non-nil
+	lostErr     *flow.State
+	lostErrSite *ast.CallExpr
+	lostErrRet  ast.Node
+	errSites    int // request sites whose error is bound to a variable
 }
 
 const (
@@ -238,11 +244,49 @@ func (a *c19reads) summary(f *flow.Func, depth int) *c19sum {
 		return nil
 	}
 	s.res = res
+	// the variable each request site binds its error to: `x, err := site(..)`
+	pm := parentMap(f.Node)
+	siteErr := map[*ast.CallExpr]ast.Expr{}
+	for _, site := range s.sites {
+		var p ast.Node = site
+		for {
+			if pe, ok := pm[p].(*ast.ParenExpr); ok {
+				p = pe
+				continue
+			}
+			break
+		}
+		if as, ok := pm[p].(*ast.AssignStmt); ok && len(as.Rhs) == 1 && len(as.Lhs) >= 1 {
+			last := as.Lhs[len(as.Lhs)-1]
+			if c19isErr(f.Info.TypeOf(last)) && c19obj(f, last) != nil {
+				siteErr[site] = last
+				s.errSites++
+			}
+		}
+		// an immediately invoked literal that loses the error loses it for this function too
+		if lit, ok := ast.Unparen(site.Fun).(*ast.FuncLit); ok {
+			if ls := a.sums[lit]; ls != nil && ls.lostErr != nil && s.lostErr == nil {
+				s.lostErr, s.lostErrSite, s.lostErrRet = ls.lostErr, ls.lostErrSite, ls.lostErrRet
+			}
+		}
+	}
 	for _, ex := range res.Exits {
 		if ex.Kind != flow.ExitReturn || c19phantom(ex) {
 			continue
 		}
-		if c19success(f, ex) == flow.False {
+		succ := c19success(f, ex)
+		if succ != flow.False && s.lostErr == nil {
+			for site, e := range siteErr {
+				if ex.State.Is(f.NilKey(e), flow.False) {
+					s.lostErr, s.lostErrSite = ex.State, site
+					s.lostErrRet = ex.At
+					if ex.Return != nil {
+						s.lostErrRet = ex.Return
+					}
+				}
+			}
+		}
+		if succ == flow.False {
 			continue
 		}
 		k := c19count(ex.State)
@@ -346,10 +390,12 @@ func c19Pull(c *core.Ctx, r *c19run) {
 			}
 			c.Check(one && len(cs.counts) == 1, "R-C19-2", declName(pkg, fd)+"|single KV request per successful call", pos(c, fd),
 				sprintf("%d request site(s); every successful path issues exactly one", len(cs.sites)), why, witness(bad)...)
+			c19lostErr(c, declName(pkg, fd), flow.NewFunc(pkg, fd), cs)
 			c.Check(!c19hasOption(pkg.TypesInfo, fd.Body, "WithSerializable"), "R-C19-2", declName(pkg, fd)+"|linearizable read", pos(c, fd),
 				"no WithSerializable option: the range request goes through the leader's consensus, successive pulls see non-decreasing store states",
 				"the read is made serializable (answered locally by whichever member the client talks to): a lagging member returns an older state after a newer one was already delivered — snapshots go backwards in store order")
 		}
+		c19lostErr(c, pname, pf, s)
 		_, one := s.counts[1]
 		bad := s.counts[0]
 		why := "pull can return success without having read the store: the snapshot is made up, not a content the store had"
@@ -425,4 +471,28 @@ func c19Pull(c *core.Ctx, r *c19run) {
 	if len(a.problem) > 0 {
 		c.Undecide("R-C19-2", fname(c19pkg, "syncer", "pull")+"|request count", "?", strings.Join(a.problem, "; "))
 	}
+}
+
+// c19lostErr: on every path on which a store request (or a read below) failed, the function
+// itself returns a non-nil error — otherwise pull "succeeds" with an empty/partial result while
+// etcd is down and an empty snapshot is delivered.
+func c19lostErr(c *core.Ctx, name string, f *flow.Func, s *c19sum) {
+	if s.errSites == 0 && s.lostErr == nil {
+		return // the request's results are passed through unchanged (`return client.Get(..)`)
+	}
+	var w []string
+	why := ""
+	if s.lostErr != nil {
+		w = append([]string{"failed request: " + pos(c, s.lostErrSite) + " (" + short(f.Render(s.lostErrSite)) + "), exit: " + pos(c, s.lostErrRet)}, witness(s.lostErr)...)
+		why = "a path on which the store request failed (its error variable is non-nil) leaves the function with an error result that is not that error — nil, or another variable (e.g. a shadowed `err` inside an if statement): the failed read is reported as a successful empty read, pull delivers an EMPTY snapshot while etcd is down and the old content again afterwards — contents the store never had, in the wrong order"
+	}
+	c.Check(s.lostErr == nil, "R-C19-2", name+"|a failed store request is reported as an error", pos(c, f.Node),
+		sprintf("%d request site(s) bind their error; on every exit where it is non-nil the function's error result is non-nil", s.errSites), why, w...)
+}
+
+func short(s string) string {
+	if len(s) > 60 {
+		return s[:57] + "..."
+	}
+	return s
 }
